@@ -207,6 +207,7 @@ def consistency_reach(repo: Repo) -> RuleRun:
                 w = Obj(f"w{i}")
                 g = Obj(f"g{i}")
                 g.set("count", c)
+                g.set("counts", [2, c - 2])
                 g.set("is_defined", True)
                 w.set("grading", g)
                 w.set("coincidents", set())
@@ -216,6 +217,7 @@ def consistency_reach(repo: Repo) -> RuleRun:
                 cw = Obj("cw")
                 cg = Obj("cg")
                 cg.set("count", ccount)
+                cg.set("counts", [ccount - 2, 2])
                 cg.set("is_defined", cdef)
                 cw.set("grading", cg)
                 cw.set("coincidents", set())
@@ -250,6 +252,93 @@ def consistency_reach(repo: Repo) -> RuleRun:
                 raiser.node,
                 key=f"eval:{label}",
             )
+    # (iv) the whole chain BlockList.check_consistency -> ... on a symbolic two-block model: a conflict anywhere,
+    #      whatever the rest of the state looks like (uniform gradings, own chops, manager kind), must be refused
+    mgr_classes = [c for c in (repo.cls("items.wires.manager.WireChopManager"), repo.cls("items.wires.manager.WirePropagateManager"))]
+    block_cls, axis_cls, bl_cls = repo.cls("items.block.Block"), repo.cls("items.wires.axis.Axis"), repo.cls("lists.block_list.BlockList")
+
+    def model(conflict, shared: bool, mgr_cls, own_chops: bool):
+        """conflict = None | ("intra", b, a, w) | ("inter", b, a, w) | ("agree", b, a, w): the wire has an anti-aligned
+        coincident wire of a multigraded neighbour - same total count, division counts in the opposite order"""
+        blocks = []
+        for b in range(2):
+            axes = []
+            for a in range(3):
+                wires = []
+                common = Obj(f"g{b}{a}")
+                common.set("count", 5)
+                common.set("counts", [2, 3])
+                common.set("is_defined", True)
+                for w in range(4):
+                    wire = Obj(f"w{b}{a}{w}")
+                    if shared:
+                        g = common
+                    else:
+                        g = Obj(f"g{b}{a}{w}")
+                        g.set("count", 5)
+                        g.set("counts", [2, 3])
+                        g.set("is_defined", True)
+                    wire.set("grading", g)
+                    wire.set("coincidents", set())
+                    wires.append(wire)
+                if conflict is not None and conflict[1:3] == (b, a):
+                    kind, _, _, w = conflict
+                    if kind == "intra":
+                        g = Obj("g_conflict")
+                        g.set("count", 8)
+                        g.set("counts", [2, 6])
+                        g.set("is_defined", True)
+                        wires[w].set("grading", g)
+                    else:
+                        cw, cg = Obj("cw"), Obj("cg")
+                        cg.set("count", 5 if kind == "agree" else 8)
+                        cg.set("counts", [3, 2] if kind == "agree" else [2, 6])
+                        cg.set("is_defined", True)
+                        cw.set("grading", cg)
+                        cw.set("coincidents", set())
+                        wires[w].get("coincidents").add(cw)
+                mgr = Obj(f"mgr{b}{a}", cls=mgr_cls)
+                mgr.set("wires", wires)
+                mgr.set("chops", [Obj("chop")] if own_chops else [])
+                mgr.set("grading", Obj("axis_grading"))
+                axis = Obj(f"axis{b}{a}", cls=axis_cls)
+                axis.set("index", a)
+                axis.set("wires", mgr)
+                axis.set("neighbours", set())
+                axes.append(axis)
+            blk = Obj(f"block{b}", cls=block_cls)
+            blk.set("axes", axes)
+            blocks.append(blk)
+        bl = Obj("block_list", cls=bl_cls)
+        bl.set("blocks", blocks)
+        return bl
+
+    conflicts = [None, ("agree", 0, 1, 1), ("agree", 1, 2, 3), ("intra", 0, 0, 0), ("intra", 1, 2, 3), ("intra", 0, 1, 2), ("inter", 0, 0, 0), ("inter", 1, 2, 3), ("inter", 1, 0, 1)]
+    for conflict in conflicts:
+        for shared in (True, False):
+            if conflict is not None and conflict[0] == "intra" and shared:
+                continue  # four wires sharing one grading cannot disagree among themselves
+            for mgr_cls in mgr_classes:
+                for own_chops in (False, True):
+                    label = f"{conflict or 'no conflict'} / {'one grading shared by the 4 wires' if shared else 'separate gradings'} / {mgr_cls.name} / {'own chops' if own_chops else 'no own chops'}"
+                    try:
+                        Evaluator(repo=repo, module=root.module).call_funcinfo(root, [model(conflict, shared, mgr_cls, own_chops)])
+                        got = None
+                    except Raised as err:
+                        got = err.exc_name
+                    except NotEvaluable as err:
+                        raise AnalysisError(f"{root.qualname} not evaluable on the symbolic two-block model: {err}") from err
+                    should = conflict is not None and conflict[0] != "agree"
+                    ok = (got is not None and got.endswith("InconsistentGradingsError")) if should else got is None
+                    r.check(
+                        ok,
+                        root,
+                        f"{label}: {'refused' if got else 'accepted'}",
+                        f"BlockList.check_consistency on a two-block model, {label}: "
+                        + ("no error is raised - blocks with different counts on a shared/parallel edge would be written" if should else f"raises {got} although all total counts agree"),
+                        root.node,
+                        key=f"chain:{label}",
+                    )
     return r
 
 
@@ -278,6 +367,15 @@ def axis_table(repo: Repo) -> RuleRun:
             )
             r.check(ok, mod, f"{pair} is an axis-{axis} edge, low->high", why, key=f"AXIS_PAIRS[{axis}]:{tuple(pair)}")
             corners += [a, b]
+        want_order = hexa.EDGE_GRADING_ORDER[axis]
+        r.check(
+            tuple(tuple(p) for p in pairs) == want_order,
+            mod,
+            f"axis {axis}: the four wires are listed in the order blockMesh reads edgeGrading",
+            f"AXIS_PAIRS[{axis}] = {tuple(tuple(p) for p in pairs)} but blockMesh reads the edgeGrading entries of this direction in the order {want_order}: "
+            "the gradings of two edges would be written into each other's slot",
+            key=f"AXIS_PAIRS[{axis}]:order",
+        )
         r.check(sorted(corners) == list(range(8)), mod, f"axis {axis} pairs are disjoint and cover 8 corners", f"axis {axis} pairs are not a partition of the 8 corners: {sorted(corners)}", key=f"AXIS_PAIRS[{axis}]:partition")
     ep = c["EDGE_PAIRS"]
     flat = [tuple(p) for axis in ap for p in axis]
